@@ -307,6 +307,7 @@ func scenarioC08(r *Run) {
 	b := r.W.Bess
 	apps := map[string][]*refFlow{} // currently provisioned table (reference)
 	ueN := uint32(0)
+	lastPFDSeq := uint32(0)
 	newSession := func() (*CPSession, uint32) {
 		ueN++
 		s := gen.Session(p, SessShape{})
@@ -341,7 +342,16 @@ func scenarioC08(r *Run) {
 				ies = append(ies, ie.NewApplicationIDsPFDs(ie.NewApplicationID(id), ie.NewPFDContext(ctx...)))
 
 			}
-			req := message.NewPFDManagementRequest(p.NextSeq(), ies...)
+			seq := p.NextSeq()
+			if lastPFDSeq != 0 && r.Ch.Choose(3, "pfd-seq-reused") == 1 {
+				// the control plane numbers this request like its previous PFD request
+				// (it restarted its counter, or keeps one counter per procedure): a new
+				// request all the same, to be processed like any other
+				seq = lastPFDSeq
+				r.Probe("pfd-request-reuses-sequence-number")
+			}
+			lastPFDSeq = seq
+			req := message.NewPFDManagementRequest(seq, ies...)
 			var rx *RxMsg
 			if rejectAt >= 0 {
 				// make the last element unusable on the wire: strip its Application ID child
